@@ -9,6 +9,7 @@ import (
 
 	"github.com/mimecast/dtail/internal/mapr"
 	"github.com/mimecast/dtail/internal/source"
+	"github.com/mimecast/dtail/verif/explore"
 	"github.com/mimecast/dtail/verif/vos"
 	"github.com/mimecast/dtail/verif/vrt"
 )
@@ -377,13 +378,119 @@ func c15Sig(d string) string {
 	return "other"
 }
 
+// c15Concurrent: the periodic reporter's interim write and the final write of
+// the same client can be requested at the same moment (reportResults(false) from
+// the interval goroutine, reportResults(true) when the session ends).  All
+// schedules within the bound, file-system operations being scheduling points.
+func c15Concurrent(c *Ctx, appendMode bool, d int) {
+	dir := Scratch() + fmt.Sprintf("/c15c-%d-%v", c.Shard, appendMode)
+	os.MkdirAll(dir, 0o755)
+	path := dir + "/out.csv"
+	run := c15Run{Append: appendMode, Rows: 2}
+	header, body := c15Expected(run)
+	sc := &explore.Scenario{Name: "c15-concurrent-writers", Params: fmt.Sprintf("append=%v", appendMode), MaxSteps: 100000, Horizon: time.Hour, Demotion: true}
+	sc.Run = func(cfg vrt.Config) (string, string, vrt.Result) {
+		var out, viol string
+		os.Remove(path)
+		os.Remove(path + ".tmp")
+		os.Remove(path + ".query")
+		os.Remove(path + ".query.tmp")
+		if !appendMode {
+			cfg.Invariant = func() string {
+				if cur := c15Read(path); cur != absent && cur != header+body {
+					return fmt.Sprintf("the outfile is observable half-written: %q", cur)
+				}
+				return ""
+			}
+		}
+		res := vrt.Run(cfg, func() {
+			args := DefaultArgs()
+			args.Logger = "none"
+			args.LogLevel = "error"
+			StartEnv(source.Client, &args, nil)
+			vos.S.Visible = true
+			query, err := mapr.NewQuery(c15Query(path, run))
+			if err != nil {
+				panic(err)
+			}
+			global := mapr.NewGlobalGroupSet()
+			g := mapr.NewGroupSet()
+			a := g.GetSet("a")
+			a.Aggregate("k", mapr.Last, "a", false)
+			a.Aggregate("count(k)", mapr.Count, "a", false)
+			a.Aggregate("sum(v)", mapr.Sum, "1.5", false)
+			a.Samples = 1
+			b := g.GetSet("b")
+			b.Aggregate("k", mapr.Last, "b", false)
+			b.Aggregate("count(k)", mapr.Count, "b", false)
+			b.Aggregate("count(k)", mapr.Count, "b", false)
+			b.Aggregate("sum(v)", mapr.Sum, "3", false)
+			b.Aggregate("sum(v)", mapr.Sum, "4", false)
+			b.Samples = 2
+			if err := global.Merge(query, g); err != nil {
+				panic(err)
+			}
+			done := vrt.Make[error]("done", 2)
+			vrt.Go("interim-report", func() { done.Send("done", global.WriteResult(query, false)) })
+			vrt.Go("final-report", func() { done.Send("done", global.WriteResult(query, true)) })
+			for i := 0; i < 2; i++ {
+				if e := done.Recv("wait"); e != nil {
+					viol = "WriteResult failed: " + e.Error()
+				}
+			}
+			cur := c15Read(path)
+			out = cur
+			if viol != "" {
+				return
+			}
+			if !appendMode && cur != header+body {
+				viol = fmt.Sprintf("after an interim and a final report requested at the same time the outfile holds %q, want the complete result %q", show(cur), header+body)
+			}
+			if appendMode {
+				if !strings.HasPrefix(cur, header) || strings.Count(cur, header) != 1 {
+					viol = fmt.Sprintf("append mode: the header must be written exactly once, first; file: %q", cur)
+				} else {
+					rest := strings.TrimPrefix(cur, header)
+					for rest != "" {
+						if !strings.HasPrefix(rest, body) {
+							viol = fmt.Sprintf("append mode: rows of the two reports are interleaved or torn: %q", cur)
+							break
+						}
+						rest = strings.TrimPrefix(rest, body)
+					}
+				}
+			}
+			if q := c15Read(path + ".query"); viol == "" && q != c15Query(path, run) {
+				viol = fmt.Sprintf(".query holds %q", show(q))
+			}
+		})
+		if res.Fail != nil {
+			viol = res.Fail.Error()
+			out = "fail:" + res.Fail.Kind
+		}
+		return out, viol, res
+	}
+	c.Explore(sc, d, func(msg string, v *explore.Violation) string {
+		switch {
+		case strings.Contains(msg, "half-written"), strings.Contains(msg, "want the complete result"):
+			return "outfile-corrupted-by-concurrent-reports"
+		case strings.Contains(msg, "append mode"):
+			return "append-outfile-corrupted-by-concurrent-reports"
+		case strings.HasPrefix(msg, "panic"):
+			return "panic"
+		}
+		return "other"
+	})
+	os.RemoveAll(dir)
+}
+
 func init() {
 	Register(&Check{
 		ID:    "C15",
 		Level: "fault_enumeration",
 		Rule: "explicit-state search over file-system states (content of outfile, outfile.tmp, .query, .query.tmp): from {nothing, a complete outfile of an earlier query} every run variant (replace/append x 3 result sets x 0/1 interim report + final report, " +
 			"the call pattern of MaprClient.reportResults in cumulative mode) is executed on the real GlobalGroupSet.WriteResult over a recording file system, once to completion and once killed before EVERY mutating file-system operation " +
-			"(the file system is frozen, deferred clean-up has no effect); resulting states are de-duplicated and expanded to histories of 2 (quick) / 3 (thorough) runs; the invariant is evaluated on every state; non-trivial = a history containing a kill",
+			"(the file system is frozen, deferred clean-up has no effect); resulting states are de-duplicated and expanded to histories of 2 (quick) / 3 (thorough) runs; the invariant is evaluated on every state; plus: an interim and a final report of one client requested at the same moment (replace and append mode), all schedules within 2 (quick) / 3 (thorough) deviations with file-system operations as scheduling points, invariant: the outfile is never observable half-written and ends complete; non-trivial = a history containing a kill",
 		Assumptions: []string{
 			"one WriteString/Rename/OpenFile = one system call; a kill inside a single write(2) and power-loss reordering are not modelled",
 			"canonical schedule (WriteResult is sequential under the group set's semaphore)",
@@ -405,6 +512,12 @@ func init() {
 			if res.Fail != nil {
 				c.Res.HarnessErr = res.Fail.Error()
 			}
+			d := 2
+			if c.Thorough() {
+				d = 3
+			}
+			c15Concurrent(c, false, d)
+			c15Concurrent(c, true, d)
 		},
 		Replay: func(c *Ctx, rec *ViolationRec) string {
 			return "re-run bin/check C15 quick (the failing history and its file-system operation log are in the message)"
